@@ -573,7 +573,7 @@ def run(tier, only=None):
         # violated obligation of the same curve (wrong table entry, routine it delegates to)
         for oname, base, mism in pending:
             if not any(x.verdict == "violated" and CURVES[x.hint["curve"]].get("base", x.hint["curve"]) == base
-                       for x in obs):
+                       for x in obs + [ro for ro, _, _, _ in rec_obs]):
                 merr = merr or "native disagreement on a discharged obligation %s: %r" % (oname, mism)
     else:
         for o in obs:
